@@ -283,6 +283,9 @@ impl Property for C12 {
         };
         for t in &case.texts {
             let text = render_pieces(&keys, t);
+            if f7_guard(&mut rep, &case.dic, &case.cfg, &text, ctx.strict) {
+                continue;
+            }
             for mode in MODES {
                 let ml = match analyze(&dict, &text, mode, None) {
                     Ok(m) => m,
